@@ -42,6 +42,14 @@ def run(ctx) -> None:
     from . import c06
 
     ctx.reuse("C14.split-sum", c06.partition_volume)
+    # every planned (source, destination, volume) triple is executed with its own volume on both devices, and the
+    # troughs/plates it runs on track fractional volumes
+    from . import c02, c07
+
+    for dev in concrete_devices(ctx):
+        ctx.reuse("C14.execute-steps", c07.step_block, dev)
+        ctx.reuse("C14.execute-steps", c06.wiring, dev)
+    ctx.reuse("C14.execute-steps", c02.ctor)
 
 
 def _init(ctx, rule):
@@ -199,6 +207,14 @@ def instructions(ctx) -> None:
         blk = [x for x in fv.calls() if isinstance(x.call.func, ast.Attribute) and x.call.func.attr == "append" and is_name(x.call.func.value, targets_name)
                and {(key(r), p) for r, p, br in fv.atoms_at(x.node)} == {(key(r), p) for r, p, br in fv.atoms_at(cs.node)} and fv.cfg.enclosing_loops(x.node) == fv.cfg.enclosing_loops(cs.node)]
         ctx.rep.check(len(blk) == 1, "C14.earlier-source", c + "/parallel-lists", "instructions and actual_targets grow together", "the instruction is appended without its achieved concentrations (or vice versa): later lookups by column index are misaligned", where=w)
+        if len(blk) == 1 and blk[0].call.args:
+            # ... and are the concentrations these very volumes produce (not those of the volumes before capping / rounding)
+            at_ = fv.res.resolve(blk[0].call.args[0], blk[0].node)
+            kv = key(v)
+            uses_v = any(key(x) == kv for x in ast.walk(at_))
+            ctx.rep.check(uses_v, "C14.achieved", c + "/achieved-from-instruction", "the recorded concentrations are computed from the instruction's own volumes",
+                          f"the achieved concentrations `{show(at_)[:70]}` are not computed from the volumes of the instruction (`{show(v)[:50]}`): the plan reports concentrations that "
+                          "executing its instructions does not produce", where=f.where(blk[0].call))
         if kind == "stock":
             # instructions[i] must describe column i (the serial loop continues at len(instructions) and indexes the list by
             # column): the stock loop has to stop at the first column it cannot prepare instead of skipping it
